@@ -226,6 +226,18 @@ def run(F, R, tier):
                 bad = [(k_, n_) for k_, n_, st in fl.exits if st is False]
                 R.ob("C03-c", "visit/External settles the slot unless it is already settled", not bad,
                      "a path through visit's External arm leaves the slot untouched although it may be Pending", where(arm["body"]))
+                # ... and never overwrites an entry that is already settled
+                for w in [n for n in walk(arm["body"]) if writes_slot(n)]:
+                    g = guards_at(F, w, stop_at=arm)
+                    if w.get("k") == "Assign":
+                        ok = any(x.kind == "cond" and x.pol and (x.node.get("fn") or "").endswith("ModuleSlot::is_pending") for x in g)
+                        why = "`*entry = External` is not guarded by entry.is_pending()"
+                    else:
+                        ok = any(x.kind == "pat" and not x.pol and pat_text(x.pat).startswith("std::option::Option::Some(") and any(y.get("name") in ("get_mut", "get") and peel(y["recv"]).get("field") == "module_slots" for y in walk(x.scrut) if y.get("k") == "MethodCall") for x in g)
+                        why = "module_slots.insert of the External marker is not confined to the case where the specifier has no slot yet"
+                    R.ob("C03-c", "visit/External never overwrites a settled entry", ok,
+                         why + ": a loader answering External{other specifier} would replace an already loaded module by an external marker", where(w),
+                         key="C03|C03-c|external-overwrites-settled")
             elif name == "Redirect":
                 calls = [n for n in walk(arm["body"]) if callee_matches(n, ["Builder::load_with_redirect_count"])]
                 bad, _ = must_pass(F, arm["body"], lambda n: callee_matches(n, ["Builder::load_with_redirect_count"]), exit_kinds=("fallthrough", "return", "break", "continue"))
